@@ -1161,11 +1161,12 @@ class MPO(MPSGeometry):
 
         """
         if self.finite:
-            return self.expectation_value_finite(psi, **init_env_data)
+            return self.expectation_value_finite(psi, init_env_data=init_env_data)
         elif self.max_range is None or self.max_range > 10 * self.L:
-            return self.expectation_value_TM(psi, tol=tol, **init_env_data)
+            return self.expectation_value_TM(psi, tol=tol, init_env_data=init_env_data)
         else:
-            return self.expectation_value_power(psi, tol=tol, max_range=max_range, **init_env_data)
+            # (the power method builds its own trivial environments)
+            return self.expectation_value_power(psi, tol=tol, max_range=max_range)
 
     def expectation_value_finite(self, psi, init_env_data={}):
         """Calculate ``<psi|self|psi>/<psi|psi>`` for finite MPS.
